@@ -2,7 +2,7 @@
 (* The model's final elements, presented in the same shape as a document recorded from the  *)
 (* real code, so that every property predicate of Reference.tla / Relations.tla can be       *)
 (* evaluated on the model's own result as an invariant.                                      *)
-EXTENDS Pipeline, Reference
+EXTENDS PipelineOps, Reference
 
 M(x) == x * MILLI
 ModelElem(t) ==
@@ -12,9 +12,10 @@ ModelElem(t) ==
                          cls |-> IF t[7] = 1 THEN <<"broken", "nofill">> ELSE <<"solid", "nofill">>, s |-> <<>>, g |-> 0]
   ELSE IF t[1] = "path" THEN [k |-> "path", n |-> <<M(t[2]), M(t[3]), M(t[4]), M(t[4]), M(t[6]), M(t[7])>>, role |-> <<0,1,2,2,0,1>>,
                          fl |-> <<0, t[8], t[5]>>, cls |-> <<"nofill">>, s |-> <<>>, g |-> 0]
+  ELSE IF t[1] = "polygon" THEN [k |-> "polygon", n |-> [i \in 1..(Len(t) - 1) |-> M(t[i + 1])],
+                         role |-> [i \in 1..(Len(t) - 1) |-> (i + 1) % 2], fl |-> <<>>, cls |-> <<"filled">>, s |-> <<>>, g |-> 0]
   ELSE IF t[1] = "circle" THEN [k |-> "circle", n |-> <<M(t[2]), M(t[3]), M(t[4])>>, role |-> <<0,1,2>>, fl |-> <<>>,
                          cls |-> <<"nofill">>, s |-> <<>>, g |-> 0]
   ELSE [k |-> "text", n |-> <<M(t[2]), M(t[3])>>, role |-> <<0,1>>, fl |-> <<>>, cls |-> <<>>, s |-> t[4], g |-> 0]
 ModelDoc(o) == [wf |-> 1, elems |-> [i \in 1..Len(o) |-> ModelElem(o[i])]]
-ModelEvent == [rows |-> rows, doc |-> ModelDoc(out)]
 =============================================================================
